@@ -887,7 +887,7 @@ func (u *Unit) fail(msg string) {
 	// a contract clause that no longer fits the code it is written for (renamed or removed
 	// local, field or callee) is a FAILED obligation, not a tool error: the property is no
 	// longer proved for this code
-	if strings.Contains(msg, "unknown identifier") || strings.Contains(msg, "cannot resolve") || strings.Contains(msg, "no field ") || strings.Contains(msg, "needs a local variable") {
+	if strings.Contains(msg, "unknown identifier") || strings.Contains(msg, "cannot resolve") || strings.Contains(msg, "no field ") || strings.Contains(msg, "needs a local variable") || strings.Contains(msg, "no call of ") {
 		for _, o := range u.obls {
 			if o.Kind == "contract-mismatch" && o.Goal == msg {
 				return
